@@ -2,7 +2,10 @@
 """C05 - kernels: proofs (Properties_C05.v) + correspondence (extracted C05Model, run with Coq's exact rationals
 or with floats, vs shark kernels compiled from /repo on the same generated kernel expressions and inputs) + an
 independent spec monitor on the C++ output (symmetry, batch = single, normalised diagonal, feature distance,
-Gram assembly vs single evaluations, eigenvalues, derivatives vs finite differences) for every anchored class."""
+Gram assembly vs single evaluations, eigenvalues, derivatives vs finite differences) for every anchored class.
+Extension: kernel expressions as a Coq data type (C05Expr den/bden: fields SE/BE), calculateMixedKernelMatrix and
+calculateKernelMatrixParameterDerivative (C05Blocks: MX/KD), GaussianTaskKernel/MultiTaskKernel (C05Task: T cases, fields TK/MT,
+monitor task-kernel-reinit); positive semi-definiteness of Gaussian/ARD/all expressions/task kernels proved over Coq's reals."""
 import os, sys, re, math
 from fractions import Fraction
 sys.path.insert(0, os.path.dirname(os.path.abspath(__file__)))
@@ -443,12 +446,15 @@ def main():
     ck = Check(PID)
     for f in ([] if ck.replay else os.listdir(ck.replay_dir)):          # replays of earlier runs would be mistaken for results of this one
         if f.startswith(("viol_", "case_")): os.remove(os.path.join(ck.replay_dir, f))
-    ck.trusted = DEFAULT_TRUSTED + ["the OCaml driver parses the kernel expression and composes the extracted combinators (no arithmetic of its own); exact runs use Coq's extracted Qc operations, float runs OCaml doubles with libm sqrt/exp",
+    ck.trusted = DEFAULT_TRUSTED + ["Coq standard library Reals (axioms ClassicalDedekindReals.sig_forall_dec, ClassicalDedekindReals.sig_not_dec, FunctionalExtensionality.functional_extensionality_dep) for the theorems over R; no other axiom",
+                                    "the OCaml driver parses the kernel expression and composes the extracted combinators (no arithmetic of its own); exact runs use Coq's extracted Qc operations, float runs OCaml doubles with libm sqrt/exp",
                                     "finite differences (five-point stencil, h = 2^-10) inside the harness are built from the kernels' own single evaluations"]
     ck.assumptions = ["inputs of one kernel call have equal dimension; PolynomialKernel offset >= 0, ScaledKernel factor > 0, WeightedSumKernel weights exp(.) > 0, DiscreteKernel table symmetric positive semi-definite (generated as A*A^T)",
                       "NormalizedKernel: base kernel value k(x,x) > 0 on every generated point",
-                      "theorems named C05_*real* / C05_psd_gaussian* / C05_psd_ard / C05_psd_exponentiated_inner_product / C05_limit_* / C05_psd_expression* are over Coq's real numbers "
-                      "(A := R, expA := exp) and rest on the standard-library axioms behind R and exp only: ClassicalDedekindReals.sig_forall_dec, ClassicalDedekindReals.sig_not_dec, "
+                      "GaussianTaskKernel/MultiTaskKernel (T cases): the model's table is computeMatrix() on a cleared matrix, summation order of the mean embeddings differs from the C++ loop (compared at 1e-11); setGamma()/setWidth() (no recomputation of the table) are not exercised",
+                      "the theorems stated over Coq's real numbers (C05_real_ordered_field_instance, C05_psd_exponentiated_inner_product, C05_psd_gaussian, C05_psd_gaussian_quadratic_forms, C05_psd_ard, C05_limit_features_*, "
+                      "C05_limit_closure_*, C05_psd_expression, C05_psd_expression_point_set, C05_psd_gaussian_task_kernel, C05_psd_multi_task_kernel, C05_psd_multi_task_kernel_expression) instantiate the model with "
+                      "A := R, expA := exp and rest on the standard-library axioms behind R and exp only: ClassicalDedekindReals.sig_forall_dec, ClassicalDedekindReals.sig_not_dec, "
                       "FunctionalExtensionality.functional_extensionality_dep (listed per theorem in the obligations); all other theorems are axiom-free and hold in every ordered field",
                       "positive semi-definiteness over R says nothing about rounding: the floating-point Gram matrices of Gaussian/ARD (and composed) kernels are additionally monitored by eigenvalues (tolerance 1e-9 * trace)"]
     ck.proofs()
